@@ -212,6 +212,49 @@ theorem determineTarget_valid (preferred : List Nat) (bflags : Nat) (cs : List T
     | cons x t => rw [hq] at hk; exact hc0 k (by rw [hq]; exact hk)
   exact hcl i (by rw [(single_iff _ _).mp h]; simp)
 
+/-! ### re-designated targets -/
+
+/-- **a designated component is the target, whatever the flags say and whatever was designated before** -/
+theorem setTarget_designate (F : FlagSet) (setFuel : Bool) (b : TBlock) (i : Nat) :
+    setTarget F setFuel (designate b i) = .target i := by
+  simp [setTarget, designate]
+
+/-- designation overwrites: only the last one counts -/
+theorem designate_designate (b : TBlock) (i j : Nat) : designate (designate b i) j = designate b j := rfl
+
+/-- **after a block's target has been re-designated (from any earlier choice to child `j`), a new
+`ExpansionData` reports `j` and ONLY `j` as that block's target** — in particular not the previously
+designated component, wherever it stands in the block's component order. -/
+theorem isTarget_after_redesignation (F : FlagSet) (setFuel : Bool) (a : List TBlock) (ib : Nat) (b : TBlock) (j : Nat)
+    (hb : a[ib]? = some b) (k : Nat) :
+    isTarget F setFuel (a.set ib (designate b j)) ib k = (k == j) := by
+  have hlt : ib < a.length := by
+    by_contra h
+    rw [List.getElem?_eq_none (not_lt.mp h)] at hb; cases hb
+  simp [isTarget, setTargets, List.getElem?_map, List.getElem?_set, hlt, setTarget_designate]
+
+/-- a block has at most one target -/
+theorem isTarget_unique (F : FlagSet) (setFuel : Bool) (a : List TBlock) (ib i j : Nat)
+    (hi : isTarget F setFuel a ib i = true) (hj : isTarget F setFuel a ib j = true) : i = j := by
+  unfold isTarget at hi hj
+  cases h : (setTargets F setFuel a)[ib]? with
+  | none => simp [h] at hi
+  | some r =>
+    cases r with
+    | noTarget => simp [h] at hi
+    | error => simp [h] at hi
+    | target t =>
+      simp only [h, beq_iff_eq] at hi hj
+      rw [hi, hj]
+
+/-- re-designating one block leaves the targets of all other blocks as they are -/
+theorem setTargets_frame (F : FlagSet) (setFuel : Bool) (a : List TBlock) (ib ib' : Nat) (b' : TBlock) (h : ib ≠ ib') :
+    (setTargets F setFuel (a.set ib b'))[ib']? = (setTargets F setFuel a)[ib']? := by
+  simp [setTargets, List.getElem?_map, List.getElem?_set, h]
+
+example : isTarget ⟨1, 2, 4, 8, 16, [8]⟩ true [designate (designate ⟨8, none, [⟨8, true⟩, ⟨16, true⟩]⟩ 1) 0] 0 1 = false := by
+  decide +kernel
+
 /-! ### the linkage hypothesis of `target_mass_conserved_partial`, on the modelled linkage -/
 
 open ArmiVerif.AxialExp in
